@@ -365,7 +365,7 @@ func crashClass(stderr string) string {
 	}
 	m = regexp.MustCompile(`0x[0-9a-fA-F]+`).ReplaceAllString(m, "0x?")
 	m = regexp.MustCompile(`\[[^\]]*\]`).ReplaceAllString(m, "[..]")
-	m = regexp.MustCompile(`[0-9]{3,}`).ReplaceAllString(m, "N")
+	m = regexp.MustCompile(`[0-9]+`).ReplaceAllString(m, "N")
 	if len(m) > 100 {
 		m = m[:100]
 	}
